@@ -9,6 +9,7 @@ export CARGO_NET_OFFLINE=true
 mkdir -p .cache evidence replays
 [ -f harness/Cargo.lock ] || cp /repo/Cargo.lock harness/Cargo.lock
 (cd harness && CARGO_TARGET_DIR=$V/.cache/target-hooks cargo build --offline 2>&1 | tail -3)
+(cd harness && CARGO_PROFILE_DEV_DEBUG_ASSERTIONS=true CARGO_TARGET_DIR=$V/.cache/target-hooks-ub cargo build --offline 2>&1 | tail -1)
 (cd /repo && CARGO_TARGET_DIR=$V/.cache/target-cli cargo build --offline --release -p kmertools 2>&1 | tail -3)
 (cd /repo && CARGO_TARGET_DIR=$V/.cache/target-py cargo build --offline --release -p pip 2>&1 | tail -3) || true
 python3 - "$V" <<'PY'
